@@ -278,6 +278,10 @@ type RelayCase struct {
 	// mode (the application's datagrams go to the relay's UDP port directly)
 	// instead of BidiCopyUDP + tunnel + RunUDPAssociateLoop.
 	Dgram bool `json:"dgram,omitempty"`
+	// Intruder > 0 (C11, sub-check assoc): after the application's datagram
+	// number Intruder has been answered, another local party sends one
+	// well-formed SOCKS5 UDP datagram to the association's port from its own socket
+	Intruder int `json:"intruder,omitempty"`
 }
 
 func genRelay(t *rapid.T) RelayCase {
@@ -491,6 +495,10 @@ func propRelay(c RelayCase) (o pbt.Outcome) {
 	}
 	var sents []sent
 	dests := map[int]bool{}
+	var intruder *net.UDPConn
+	var intruderPayload []byte
+	var early [][]byte
+	earlyBuf := make([]byte, 1<<16)
 	for i, d := range c.Dgrams {
 		dest := d.Dest
 		if dest == 3 && err6 != nil {
@@ -509,11 +517,34 @@ func propRelay(c RelayCase) (o pbt.Outcome) {
 			return
 		}
 		time.Sleep(300 * time.Microsecond) // keep the kernel queues short
+		if c.Intruder == i+1 {
+			// wait until the relay has served the application (its address is
+			// what the association is tied to), then let the other party try
+			app.SetReadDeadline(time.Now().Add(3 * time.Second))
+			n, _, err := app.ReadFromUDP(earlyBuf)
+			if err != nil {
+				o.Inconclusive = "the application's datagram was not answered before the intrusion"
+				return
+			}
+			early = append(early, append([]byte(nil), earlyBuf[:n]...))
+			intruder, err = net.ListenUDP("udp4", &net.UDPAddr{IP: net.IPv4(127, 0, 0, 1)})
+			if err != nil {
+				o.Inconclusive = "no loopback UDP"
+				return
+			}
+			defer intruder.Close()
+			intruderPayload = []byte(fmt.Sprintf("datagram of a party that never authenticated %d", c.Salt))
+			intruder.WriteToUDP(append(header(0), intruderPayload...), relayAddr)
+			time.Sleep(20 * time.Millisecond)
+		}
 	}
 	// collect replies
-	replies := make([][]byte, 0, len(sents))
+	replies := append(make([][]byte, 0, len(sents)), early...)
 	buf := make([]byte, 1<<16)
 	deadline := time.Now().Add(3 * time.Second)
+	if intruder != nil {
+		deadline = time.Now().Add(200 * time.Millisecond) // mieru ends the association at the intrusion
+	}
 	for len(replies) < len(sents) {
 		app.SetReadDeadline(deadline)
 		n, _, err := app.ReadFromUDP(buf)
@@ -523,6 +554,30 @@ func propRelay(c RelayCase) (o pbt.Outcome) {
 		replies = append(replies, append([]byte(nil), buf[:n]...))
 	}
 	o.NonTrivial = len(dests) >= 2 || len(c.Chunks) > 0
+	if intruder != nil {
+		// the association belongs to the application that opened it (and, on a
+		// listener with credentials, authenticated): nothing the other party sent
+		// may reach a destination, nothing may come back to it
+		o.NonTrivial = true
+		for di, e := range echoes {
+			if e == nil {
+				continue
+			}
+			e.mu.Lock()
+			for _, g := range e.got {
+				if bytes.Equal(g, intruderPayload) {
+					o.Failf("intruder-relayed", "a datagram sent to the association's UDP port by a party that is not the application which opened the association was relayed to destination %d", di)
+				}
+			}
+			e.mu.Unlock()
+		}
+		intruder.SetReadDeadline(time.Now().Add(300 * time.Millisecond))
+		if n, _, err := intruder.ReadFromUDP(buf); err == nil {
+			o.Failf("intruder-answered", "the party that is not the application which opened the association received a %d-byte datagram from the relay", n)
+		}
+		// what happens to the association afterwards (mieru ends it) is not this sub-check's subject
+		return
+	}
 	o.Label("dests=%d", len(dests))
 	o.Label("ipv6=%v", err6 == nil)
 	// what each destination saw: exactly the payloads addressed to it, in order
@@ -615,6 +670,25 @@ func min(a, b int) int {
 		return a
 	}
 	return b
+}
+
+// C11 (assoc): the UDP port of an association is the one place where the
+// listener takes traffic without a negotiation; it must stay tied to the
+// application that opened (and authenticated for) the association.
+func genAssoc(t *rapid.T) RelayCase {
+	c := genRelay(t)
+	c.Dgram = false
+	for i := range c.Dgrams {
+		if c.Dgrams[i].Len > 1472 {
+			c.Dgrams[i].Len = 1472
+		}
+	}
+	c.Intruder = rapid.IntRange(1, len(c.Dgrams)).Draw(t, "intruderAfter")
+	return c
+}
+
+func TestC11Assoc(t *testing.T) {
+	pbt.Run(t, "C11", "assoc", genAssoc, propRelay)
 }
 
 func TestC18Relay(t *testing.T) {
